@@ -193,8 +193,10 @@ def oracle_c04(tr: Trace):
 class SilentCase:
     """A transfer in which one or both directions of the link go silent after the i-th PDU, permanently or for j expiries."""
 
-    def __init__(self, cfg: Cfg, size, cut_dir, cut_at, resume_after=None, tag="c04"):
+    def __init__(self, cfg: Cfg, size, cut_dir, cut_at, resume_after=None, tag="c04", poll_ms=None):
         self.cfg, self.size, self.cut_dir, self.cut_at, self.resume_after, self.tag = cfg, size, cut_dir, cut_at, resume_after, tag
+        self.poll_ms = poll_ms      # idle rounds advance the clock by this much instead of a whole timer interval: most calls
+                                    # then find no new expiry
 
     def describe(self):
         c = self.cfg
@@ -207,7 +209,7 @@ class SilentCase:
         try:
             data = bytes((5 * i + 1) % 256 for i in range(self.size))
             start_transfer(w, data)
-            r = Runner(w, [], max_rounds=300)
+            r = Runner(w, [], max_rounds=getattr(self, "max_rounds", 300))
             # silence = drop everything on the chosen direction(s) from index cut_at on (until resume)
             tick = min(cfg.ack_ms, cfg.nak_ms)
             expiries = 0
@@ -227,11 +229,11 @@ class SilentCase:
                         keep = max(0, self.cut_at - (r.count[d] - len(q)))
                         del q[keep:]
                 if a == 0 or (not w.link_s2d and not w.link_d2s):
-                    w.advance(tick)
+                    w.advance(self.poll_ms or tick)
                     expiries += 1
                     if self.resume_after is not None and expiries >= self.resume_after:
                         silent = False
-                if expiries > 8 * (cfg.ack_limit + cfg.nak_limit) + 10:
+                if expiries > (8 * (cfg.ack_limit + cfg.nak_limit) + 10) * (tick // self.poll_ms if self.poll_ms else 1):
                     break
             self.quiescent = r.quiescent()
             self.sides = [("source", w.src.ops, w.src.obs), ("dest", w.dst.ops, w.dst.obs)]
